@@ -226,6 +226,16 @@ def run_shard(spec, acc):
                 }
                 # the long-lived decoders see every transmission, also those whose payload is rejected: a complete
                 # message that fails to decode must leave nothing behind (repeated transmission, same counter)
+                # one long-lived decoder that is given whole messages and frame-wise transmissions alternately, in an
+                # order that changes from case to case (an application reading a log file and a gateway)
+                mixed = [("mixed_actisense_whole", lambda: LONG_LIVED.setdefault("mixed", D()).decode_actisense_string(wire.actisense_line(prio, d.pgn, src, d_eff, pb))),
+                         ("mixed_ebyte_frames", framewise("ebyte", prio, d.pgn, src, dst, frames, long_lived="mixed")),
+                         ("mixed_plain_whole", lambda: LONG_LIVED.setdefault("mixed", D()).decode_basic_string(wire.plain_line(prio, d.pgn, src, d_eff, pb), already_combined=True)),
+                         ("mixed_usb_frames", framewise("usb", prio, d.pgn, src, dst, frames, long_lived="mixed")),
+                         ("mixed_plain_frames", framewise("plain", prio, d.pgn, src, dst, frames, long_lived="mixed"))]
+                rot = c % len(mixed)
+                for n_, fn_ in mixed[rot:] + mixed[:rot]:
+                    routes[n_] = fn_
                 outs = {n: outcome(fn) for n, fn in routes.items()}
                 outs.update(lockstep(prio, d.pgn, src, dst, frames))
                 w.update({"fast": True, "seq": seq, "pad": pad})
